@@ -19,8 +19,8 @@ EvalInit ==
   /\ \E k \in 1..Len(Cases) : \E j \in 1..Len(DevSets) :
        design = [Cases[k].design EXCEPT !.devs = RangeQ(DevSets[j].devs)]
   /\ opc = "server" /\ mounts = {} /\ srvOps = {} /\ doc3 = {} /\ doc2 = {} /\ verdicts = NoVerdicts
-  /\ Init
-EvalSpec == EvalInit /\ [][ONext]_<<ovars, vars>>
+  /\ Init /\ xflag = "none"
+EvalSpec == EvalInit /\ [][ONext]_<<ovars, hvars>>
 EffJ(d) == [i \in DOMAIN d.svcs |-> [j \in DOMAIN d.svcs[i].meths |-> EffSec(d, d.svcs[i], d.svcs[i].meths[j])]]
 EmitEval == opc = "done" =>
   PrintT(<<"VEC", ToJson([
@@ -29,4 +29,29 @@ EmitEval == opc = "done" =>
                    doc3 |-> OpsJ({Proj3(o) : o \in {x \in ExpectedOps(design) \cup ExpectedFileOps(design) : Expressible3(x)}}),
                    doc2 |-> OpsJ({Proj2(o) : o \in {x \in ExpectedOps(design) \cup ExpectedFileOps(design) : Expressible2(x)}})],
      mech |-> [mounts |-> SetSeq(mounts), srvOps |-> OpsJ(srvOps), doc3 |-> OpsJ(doc3), doc2 |-> OpsJ(doc2), verdicts |-> verdicts] ])>>)
+
+\* ---- part 2 (C14)
+\* (G) one vector per exchange of the request family, raw requests included
+ValJ(S) == SetSeq(S)
+EmitX == pc = "done" =>
+  PrintT(<<"VEC", ToJson([fam |-> Family, pa |-> cfg.pa, ra |-> cfg.ra, tagged |-> cfg.tagged, pv |-> pv, rv |-> rv, flag |-> xflag,
+     raw |-> (xflag # "none" \/ \E i \in PIdx : Malformed(pv[i])),
+     allow |-> [mustInvoke |-> Satisfies(cfg.pa, pv) /\ xflag = "none" /\ (\A i \in PIdx : ~Malformed(pv[i])),
+                mustReject |-> Violates(cfg.pa, pv) \/ (\E i \in PIdx : Malformed(pv[i])),
+                cMustAccept |-> Satisfies(cfg.ra, rv)],
+     mech |-> [invoked |-> invoked, status |-> status, sreq |-> ValJ(SchemaReqVerdicts),
+               sresp |-> IF invoked /\ status \in {200, 201} THEN ValJ(SchemaRespVerdicts) ELSE <<>>] ])>>)
+\* evaluation of given exchanges under given deviation sets
+XCases == ndJsonDeserialize("xcases.ndjson")
+XEvalInit ==
+  /\ \E k \in 1..Len(XCases) : \E j \in 1..Len(DevSets) :
+       /\ cfg = [pa |-> XCases[k].pa, ra |-> XCases[k].ra, tagged |-> XCases[k].tagged, devs |-> RangeQ(DevSets[j].devs)]
+       /\ pv = XCases[k].pv /\ rv = XCases[k].rv /\ xflag = XCases[k].flag
+  /\ pc = "encode" /\ wire = <<>> /\ delivered = <<>> /\ invoked = FALSE /\ status = 0 /\ errname = "none"
+  /\ rwire = <<>> /\ returned = <<>> /\ cerr = "none" /\ OInit
+XEvalSpec == XEvalInit /\ [][XNext /\ UNCHANGED ovars]_<<hvars, ovars>>
+EmitXEval == pc = "done" =>
+  PrintT(<<"VEC", ToJson([pa |-> cfg.pa, ra |-> cfg.ra, tagged |-> cfg.tagged, pv |-> pv, rv |-> rv, flag |-> xflag, devs |-> SetSeq(cfg.devs),
+     mech |-> [invoked |-> invoked, status |-> status, sreq |-> ValJ(SchemaReqVerdicts),
+               sresp |-> IF invoked /\ status \in {200, 201} THEN ValJ(SchemaRespVerdicts) ELSE <<>>] ])>>)
 =============================================================================
